@@ -4,6 +4,7 @@ import Drivers.TimeD
 import Drivers.Tab
 import Drivers.StoreD
 import Drivers.RotD
+import Drivers.CodecD
 
 def main (args : List String) : IO UInt32 := do
   let stdin ← IO.getStdin
@@ -15,4 +16,5 @@ def main (args : List String) : IO UInt32 := do
   | ["store"] => Drivers.loop stdin Drivers.StoreD.St.none Drivers.StoreD.step; return 0
   | ["crash"] => Drivers.loop stdin Fix8Model.Store.FS.init Drivers.CrashD.step; return 0
   | ["rot"] => Drivers.loop stdin () (fun _ l => ((), Drivers.RotD.step l)); return 0
+  | ["codec"] => Drivers.loop stdin () (fun _ l => ((), Drivers.CodecD.step l)); return 0
   | _ => IO.eprintln "usage: driver <stream>"; return 2
